@@ -134,6 +134,8 @@ pub struct World {
     pub probe_rng: Rng,
     /// (number, epoch number, hash) of every block that was detached from the main chain (uncle candidates)
     pub detached_log: Vec<(u64, u64, Byte32)>,
+    /// anomalies to report with the next event
+    pub pending_bad: Vec<String>,
     pub n_boundary_templates: u64,
 }
 
@@ -174,7 +176,7 @@ impl World {
         let mut w = World {
             scn: scn.clone(), c, node, prefix: prefix.to_string(), outs, txs: vec![], tx_by_hash: HashMap::new(), tx_by_short: HashMap::new(),
             blocks: vec![], blk_by_hash: HashMap::new(), chain: vec![], events: vec![], now: ckb_systemtime::unix_time_as_millis(),
-            last_dump: None, salt: 0, expiry_ms: HOUR_MS, tmp_before, pool_names: vec![], stopped: false, stop_reason: None, probe_templates: false, probe_budget: 0, n_templates: 0, probe_rng: Rng::new(77), detached_log: vec![], n_boundary_templates: 0,
+            last_dump: None, salt: 0, expiry_ms: HOUR_MS, tmp_before, pool_names: vec![], stopped: false, stop_reason: None, probe_templates: false, probe_budget: 0, n_templates: 0, probe_rng: Rng::new(77), detached_log: vec![], n_boundary_templates: 0, pending_bad: vec![],
         };
         w.events.push(json!({"ev": "Reset", "conf": w.conf_json()}));
         w
@@ -454,7 +456,11 @@ impl World {
         stage(&format!("emit {} {}", ev, extra));
         self.wait_verify_queue();
         let before: HashSet<String> = self.pool_names.iter().cloned().collect();
-        let obs = self.observe();
+        let mut obs = self.observe();
+        if !self.pending_bad.is_empty() {
+            let extra: Vec<Value> = self.pending_bad.drain(..).map(Value::String).collect();
+            obs["bad"].as_array_mut().unwrap().extend(extra);
+        }
         let after: Vec<String> = obs["st"].as_object().unwrap().keys().cloned().collect();
         // entries nobody asked for: recovered by the pool itself (parents first)
         let mut recovered: Vec<String> = after.iter().filter(|n| !before.contains(*n) && !explained.contains(n)).cloned().collect();
@@ -582,7 +588,15 @@ impl World {
 
     // ------------------------------------------------------------------ operations
     pub fn submit(&mut self, t: usize) -> Result<(), String> {
-        let r = self.ctl().submit_local_tx(self.txs[t].view.clone()).unwrap().map_err(|e| e.to_string());
+        // a panic inside the pool's task drops the responder: the request fails as a whole.  That is data (the
+        // specification has no such outcome), not a tool error.
+        let r = match self.ctl().submit_local_tx(self.txs[t].view.clone()) {
+            Ok(r) => r.map_err(|e| e.to_string()),
+            Err(e) => {
+                self.pending_bad.push(format!("pool-panic:submit:{}", e.to_string().chars().take(60).collect::<String>()));
+                Err("PANIC".to_string())
+            }
+        };
         let cls = match &r {
             Ok(()) => "ok".to_string(),
             Err(e) => e.split(|c: char| !c.is_alphanumeric()).next().unwrap_or("").to_string(),
